@@ -1,5 +1,6 @@
 import Rg.Proto
 import Rg.Model.Comment
+import Rg.Model.CommentAsIs
 import Rg.Spec.C12
 import Rg.Model.CommentBridge
 import Drv.TextMatch
@@ -37,6 +38,22 @@ def ruleOf : SExp → Option CRule
            suggestion := (← hexAtom sugg), line := (← intOfAtom line), altLine := (← intOfAtom alt) }
   | _ => none
 
+/-- the same rule for the model of the code before `fixes/c12-cr-offsets.diff` -/
+def atomAsIs : Atom → CMAsIs.Atom
+  | .textEq v l => .textEq v l
+  | .textNe v l => .textNe v l
+
+def ruleAsIs (r : CRule) : CMAsIs.CRule :=
+  { captureGroups := r.captureGroups, names := r.names, sub := r.sub, idx := r.idx, filter := r.filter.map (·.map atomAsIs),
+    msg := r.msg, location := r.location, suggestion := r.suggestion, line := r.line, altLine := r.altLine }
+
+def showReportAsIs (r : CMAsIs.Report) : String :=
+  "report " ++ toString r.line ++ " " ++
+    (match r.node with | none => "nil" | some n => toString n.pos ++ ":" ++ toString n.endPos) ++ " " ++ hexOfBytes r.msg ++ " " ++
+    (match r.sugg with
+     | none => "none"
+     | some (f, t, b) => toString f ++ ":" ++ toString t ++ ":" ++ hexOfBytes b)
+
 def showNode : Option Node → String
   | none => "nil"
   | some n => toString n.pos ++ ":" ++ toString n.endPos
@@ -69,11 +86,14 @@ def observedOf (s : String) : Option (Option SpecC12.Observed) :=
 
 /-- ops
 * `spec12 <TruncateLen> <hex src> <off> <hex text> <rules> <none | report;line;node;msg;sugg>` → `holds` | `violates c1,c2,…` (`SpecC12.verdict`)
-* `cmrun <asis|fixed> <TruncateLen> <hex src> <size> <off> <hex text> <rules>` → `none` | `report line node msg sugg` | `panic k`
+* `cmrun <asis|fixed|crasis> <TruncateLen> <hex src> <size> <off> <hex text> <rules>` → `none` | `report line node msg sugg` | `panic k`
+  (`asis`: the rule's line is reported for every alternative; `crasis`: the code before `fixes/c12-cr-offsets.diff`)
+* `scantext <hex raw>` → hex of `ast.Comment.Text` for the comment whose source bytes are `raw` (`commentText`)
+* `textspan <hex src> <base> <hex text> <begin> <end>` → `ok from to` | `panic k` (`commentTextSpan`)
 * `hascap <tree|err>` → `0|1` (regexpHasCaptureGroups) -/
 def handle : List String → Option String
   | ["cmrun", v, cfg, src, size, off, text, rules] => do
-    let alt ← if v == "fixed" then some true else if v == "asis" then some false else none
+    let alt ← if v == "fixed" || v == "crasis" then some true else if v == "asis" then some false else none
     let cfg ← cfg.toInt?
     let src ← bytesOfHex src
     let size ← size.toNat?
@@ -82,9 +102,27 @@ def handle : List String → Option String
     let rules ← match parseSExp (rules.replace "," " ") with
       | some (.list xs) => xs.mapM ruleOf
       | _ => none
-    pure (match runCommentRules alt src size cfg off text rules with
+    pure (if v == "crasis" then
+      match CMAsIs.runCommentRules alt src size cfg off text (rules.map ruleAsIs) with
+      | .ok none => "none"
+      | .ok (some r) => showReportAsIs r
+      | .panic k => "panic " ++ panicName k
+    else
+      match runCommentRules alt src size cfg off text rules with
       | .ok none => "none"
       | .ok (some r) => showReport r
+      | .panic k => "panic " ++ panicName k)
+  | ["scantext", raw] => do
+    let raw ← bytesOfHex raw
+    pure (hexOfBytes (commentText raw))
+  | ["textspan", src, base, text, b, e] => do
+    let src ← bytesOfHex src
+    let base ← base.toNat?
+    let text ← bytesOfHex text
+    let b ← b.toNat?
+    let e ← e.toNat?
+    pure (match textSpan src base text b e with
+      | .ok (f, t) => "ok " ++ toString f ++ " " ++ toString t
       | .panic k => "panic " ++ panicName k)
   | ["spec12", cfg, src, off, text, rules, obs] => do
     let cfg ← cfg.toInt?
